@@ -78,6 +78,9 @@ def flow_ops(shape):
     elif shape == "T2":
         ops += [["alloc", R, "s1", 32.0], ["alloc", R, "s1", -8.0], ["alloc", R, "s2", 16.0], ["alloc", ["s1"], "a", 8.0], ["alloc", ["s2"], "a", 8.0]]
         ops += [["reb", R, "s1", 0.5], ["close", R, "s1"], ["flatten", R], ["allocself", ["s1"], 8.0], ["adjust", ["s1"], 4.0, False]]
+    elif shape == "T3":
+        ops += [["alloc", R, "s1", 16.0], ["alloc", R, "s1", -8.0], ["alloc", ["s1"], "s11", 8.0], ["alloc", ["s1", "s11"], "a", 8.0], ["alloc", ["s1"], "b", -4.0]]
+        ops += [["reb", ["s1"], "s11", 0.5], ["close", ["s1"], "s11"], ["close", R, "s1"], ["flatten", R], ["adjust", ["s1"], 4.0, False]]
     else:
         raise KeyError(shape)
     return ops
